@@ -2,6 +2,7 @@
 from .common import *
 from sa import apicompat
 from . import C02 as _star
+from . import C01 as _em
 
 TITLE = "STOPGAP <-> cryoCAT conversion is a lossless renaming with parity half-sets"
 EXPLANATION = (
@@ -238,6 +239,8 @@ def _obligations():
         Obligation("O4.1", "StopgapMotl.pairs is the documented bijective renaming of the 14 shared fields", o41, floor=15),
         Obligation("O4.2", "convert_to_sg_motl / convert_to_motl copy each field to its renamed column; halfset parity; motl_idx", o42, floor=50),
         Obligation("O4.3", "write_out writes the current table (all option combinations), right block name, fillna, order kept", o43, floor=100),
+        Obligation("O4.5", "the EM reader behind emmotl2stopgap(path): canonical column names, 20-column guard, data layout kept (shared with C01)",
+                   _em.o12, floor=4),
         Obligation("O4.4", "particle order: read_in returns the file block as it stands; both conversions keep the row order", o44, floor=20),
         Obligation("O4.7", "library calls on the STOPGAP conversion paths exist in the installed pandas", o47, floor=5),
         Obligation("O4.6a", "STAR writer on the via-file path: cell text reads back to the value (shared with C02)", _star.o23, floor=30),
@@ -246,4 +249,4 @@ def _obligations():
 
 
 def obligations():
-    return _obligations() + [constructors_obligation(['cryomotl.StopgapMotl']), labels_obligation("C04"), selectors_obligation("C04"), effects_obligation("C04")]
+    return _obligations() + [converters_obligation([("cryomotl.emmotl2stopgap", {"output_motl_path": K(None)}, {})]), constructors_obligation(['cryomotl.StopgapMotl']), labels_obligation("C04"), selectors_obligation("C04"), effects_obligation("C04")]
